@@ -5,6 +5,7 @@ import (
 	"fmt"
 	"hash/fnv"
 	"math/rand/v2"
+	"os"
 	"sort"
 	"strings"
 	"testing"
@@ -59,6 +60,30 @@ type Stats struct {
 	Distinct map[uint64]bool  `json:"-"`
 	DKeys    []uint64         `json:"d,omitempty"`
 	Samples  []string         `json:"samples,omitempty"`
+	// named sets of hashes: distinct interleavings, distinct final states, ...
+	Sets map[string][]uint64 `json:"sets,omitempty"`
+	sets map[string]map[uint64]bool
+}
+
+// Mark adds key to the named set (measures of reach: distinct interleavings, states, ...).
+func (s *Stats) Mark(set, key string) {
+	if s.sets == nil {
+		s.sets = map[string]map[uint64]bool{}
+	}
+	if s.sets[set] == nil {
+		s.sets[set] = map[uint64]bool{}
+	}
+	h := fnv.New64a()
+	h.Write([]byte(key))
+	s.sets[set][h.Sum64()] = true
+}
+
+func (s *Stats) SetSizes() map[string]int {
+	out := map[string]int{}
+	for k, v := range s.sets {
+		out[k] = len(v)
+	}
+	return out
 }
 
 func NewStats() *Stats { return &Stats{C: map[string]int64{}, Distinct: map[uint64]bool{}} }
@@ -91,6 +116,28 @@ func (s *Stats) Merge(o *Stats) {
 	for _, k := range o.DKeys {
 		s.Distinct[k] = true
 	}
+	for name, ks := range o.Sets {
+		for _, k := range ks {
+			if s.sets == nil {
+				s.sets = map[string]map[uint64]bool{}
+			}
+			if s.sets[name] == nil {
+				s.sets[name] = map[uint64]bool{}
+			}
+			s.sets[name][k] = true
+		}
+	}
+	for name, m := range o.sets {
+		for k := range m {
+			if s.sets == nil {
+				s.sets = map[string]map[uint64]bool{}
+			}
+			if s.sets[name] == nil {
+				s.sets[name] = map[uint64]bool{}
+			}
+			s.sets[name][k] = true
+		}
+	}
 	for _, x := range o.Samples {
 		if len(s.Samples) < 5 {
 			s.Samples = append(s.Samples, x)
@@ -104,6 +151,12 @@ func (s *Stats) Export() {
 		s.DKeys = append(s.DKeys, k)
 	}
 	sort.Slice(s.DKeys, func(i, j int) bool { return s.DKeys[i] < s.DKeys[j] })
+	s.Sets = map[string][]uint64{}
+	for name, m := range s.sets {
+		for k := range m {
+			s.Sets[name] = append(s.Sets[name], k)
+		}
+	}
 }
 
 // Relax holds the active relaxations of open known findings.
@@ -216,8 +269,12 @@ func RunSeq(t *testing.T, c *Case, st *Stats, relax Relax, o seqOpts, body func(
 			defer x.Ex.CloseAll()
 		}
 		v = body(x)
+		if b, err := os.ReadFile(w.Drive); err == nil {
+			st.Mark("distinct_final_tapes", sumOf(b))
+		}
 		finished = true
 	})
+	st.Mark("distinct_schedules", fmt.Sprintf("%x/%d", out.SwitchHash, out.Steps))
 	st.Add("sim_time_s", int64(out.SimTime/time.Second))
 	st.Add("sched_steps", int64(out.Steps))
 	st.Add("context_switches", int64(out.Switches))
